@@ -64,6 +64,8 @@ type Opts struct {
 	CKEBody []byte
 	// ECDHE ClientKeyExchange as vector
 	VecParams bool
+	// GrindZero (client role, ECDHE): choose the ephemeral key so that the pre-master secret begins with 0x00
+	GrindZero bool
 	// Body overrides: message kind -> raw body sent instead of the honest one
 	Body map[string][]byte
 	// Mutate, if set, may rewrite any outgoing handshake body.
@@ -388,6 +390,16 @@ func (p *Peer) buildCKE(o *Opts) ([]byte, error) {
 		pre, err := p.AgreeSM2(p.PeerCerts[1], p.peerEphPub)
 		if err != nil {
 			return nil, err
+		}
+		// GrindZero: the client moves last, so it can pick its ephemeral key until the agreed secret begins with a
+		// zero byte (about 256 tries) - a legal secret like any other
+		for tries := 0; o.GrindZero && pre[0] != 0 && tries < 20000; tries++ {
+			if pub, err = p.NewEphemeral(); err != nil {
+				return nil, err
+			}
+			if pre, err = p.AgreeSM2(p.PeerCerts[1], p.peerEphPub); err != nil {
+				return nil, err
+			}
 		}
 		p.DeriveMaster(pre)
 		b := ECDHEParams(pub)
